@@ -19,6 +19,9 @@ fn seed_interner() -> Interner {
     for n in ["sp", "n", "z", "c", "v", "xzr", "wzr"] {
         it.id(n);
     }
+    for i in 0..32 {
+        it.id(&format!("v{}", i)); // 38..69 ; temporaries follow
+    }
     it
 }
 
@@ -74,6 +77,78 @@ fn tb(b5: u32, op: u32, b40: u32, imm14: u32, rt: u32) -> u32 {
     b5 << 31 | 0b011011 << 25 | op << 24 | b40 << 19 | (imm14 & 0x3fff) << 5 | rt
 }
 
+fn orr_imm(sf: u32, n: u32, immr: u32, imms: u32, rn: u32, rd: u32) -> u32 {
+    sf << 31 | 0b01 << 29 | 0b100100 << 23 | n << 22 | (immr & 63) << 16 | (imms & 63) << 10 | rn << 5 | rd
+}
+fn stlur(size: u32, opc: u32, imm9: u32, rn: u32, rt: u32) -> u32 {
+    size << 30 | 0b011001 << 24 | opc << 22 | (imm9 & 0x1ff) << 12 | rn << 5 | rt
+}
+fn ldst_ord_sbo(size: u32, l: u32, o0: u32, rs: u32, rt2: u32, rn: u32, rt: u32) -> u32 {
+    size << 30 | 0b001000 << 24 | 1 << 23 | l << 22 | rs << 16 | o0 << 15 | rt2 << 10 | rn << 5 | rt
+}
+
+/// Rust port of the ACCEPTANCE of Isa/A64.decode (Some / None).  Used ONLY to tag uniformly random words the
+/// lifter accepts although the specification has no class for them (`cov:accepted-outside...`, counted per run);
+/// the comparison itself always uses the Coq decoder.
+fn spec_decodes(w: u32) -> bool {
+    let b = |hi: u32, lo: u32| (w >> lo) & ((1u32 << (hi - lo + 1)) - 1);
+    let sf = b(31, 31) == 1;
+    let opc_ok = |size: u32, opc: u32| if opc < 2 { true } else if opc == 2 { size < 3 } else { size < 2 };
+    if b(28, 23) == 34 { return true; }
+    if b(28, 24) == 11 {
+        if b(21, 21) == 0 { return !(b(23, 22) == 3 || (!sf && b(15, 10) >= 32)); }
+        return b(23, 22) == 0 && b(12, 10) <= 4;
+    }
+    if b(28, 24) == 10 && b(30, 29) == 1 && b(21, 21) == 0 { return !(!sf && b(15, 10) >= 32); }
+    if b(28, 23) == 36 && b(30, 29) == 1 {
+        let (n, imms) = (b(22, 22), b(15, 10));
+        let v = n * 64 + (63 - imms);
+        if (!sf && n == 1) || v < 2 { return false; }
+        let levels = (1u32 << (31 - v.leading_zeros())) - 1;
+        return imms & levels != levels;
+    }
+    if w == 0xd503201f { return true; }
+    if b(28, 23) == 37 { return !(b(30, 29) == 1 || (!sf && b(22, 21) >= 2)); }
+    if b(30, 26) == 5 { return true; }
+    if b(31, 24) == 84 && b(4, 4) == 0 { return true; }
+    if b(30, 25) == 26 || b(30, 25) == 27 { return true; }
+    if b(31, 25) == 107 && b(24, 21) < 3 && b(20, 16) == 31 && b(15, 10) == 0 && b(4, 0) == 0 { return true; }
+    if b(29, 27) == 5 && b(26, 26) == 1 { return b(31, 30) != 3 && b(25, 23) <= 3; }
+    if b(29, 27) == 7 && b(26, 26) == 1 {
+        let (size, opc) = (b(31, 30), b(23, 22));
+        if opc >= 2 && size != 0 { return false; }
+        if b(25, 24) == 1 { return true; }
+        if b(25, 24) == 0 {
+            if b(21, 21) == 0 { return b(11, 10) != 2; }
+            return b(11, 10) == 2 && b(14, 14) == 1;
+        }
+        return false;
+    }
+    if b(29, 27) == 5 && b(26, 26) == 0 {
+        let (opc, mode, load) = (b(31, 30), b(25, 23), b(22, 22));
+        if opc == 3 || (opc == 1 && load == 0) { return false; }
+        if mode == 0 { return opc != 1; }
+        return mode <= 3;
+    }
+    if b(29, 27) == 7 && b(26, 26) == 0 {
+        let (size, opc) = (b(31, 30), b(23, 22));
+        if size == 3 && opc == 2 {
+            return b(25, 24) == 1 || (b(25, 24) == 0 && b(21, 21) == 0 && b(11, 10) == 0) || (b(25, 24) == 0 && b(21, 21) == 1 && b(11, 10) == 2 && b(14, 14) == 1);
+        }
+        if !opc_ok(size, opc) { return false; }
+        if b(25, 24) == 1 { return true; }
+        if b(25, 24) == 0 {
+            if b(21, 21) == 0 { return b(11, 10) != 2; }
+            return b(11, 10) == 2 && b(14, 14) == 1;
+        }
+        return false;
+    }
+    if b(29, 27) == 3 && b(26, 26) == 0 && b(25, 24) == 0 { return true; }
+    if b(29, 24) == 8 && b(23, 23) == 1 && b(21, 21) == 0 { return true; }
+    if b(29, 24) == 25 && b(23, 21) == 0 && b(11, 10) == 0 { return true; }
+    false
+}
+
 // ---------------------------------------------------------------- enumeration
 #[derive(Clone, Copy, PartialEq)]
 enum Kind {
@@ -96,9 +171,156 @@ struct Enc {
     offreg: Option<u32>,
     /// constants worth approaching (immediates, bit positions)
     hints: Vec<u64>,
+    /// register assignments that must be among the sampled states (fixed corpus shapes)
+    forced: Vec<Vec<(u32, u64)>>,
 }
 fn enc(word: u32, class: &'static str, kind: Kind, regs: &[u32]) -> Enc {
-    Enc { word, class, kind, regs: regs.to_vec(), base: None, offreg: None, hints: vec![] }
+    Enc { word, class, kind, regs: regs.to_vec(), base: None, offreg: None, hints: vec![], forced: vec![] }
+}
+
+/// Fixed corpus: shapes of past (seeded or real) regressions, present at EVERY seed as the first cases.
+fn corpus() -> Vec<Enc> {
+    let mut v = vec![];
+    let mem = |word: u32, class: &'static str, regs: &[u32], base: u32| {
+        let mut e = enc(word, class, Kind::Mem, regs);
+        e.base = Some(base);
+        e
+    };
+    // ldp/ldpsw/ldnp with Rt (or Rt2) = base, no write-back: both loads must use the ORIGINAL base
+    for (rt, rt2, rn) in [(2u32, 3u32, 2u32), (3, 2, 2), (9, 10, 9), (30, 29, 29)] {
+        for opc in [0u32, 1, 2] {
+            for mode in [0u32, 2] {
+                if opc == 1 && mode == 0 { continue; }
+                v.push(mem(ldst_pair(opc, mode, 1, 0, rt2, rn, rt), "corpus_ldp_rt_is_base", &[rt, rt2, rn], rn));
+                v.push(mem(ldst_pair(opc, mode, 1, 0x7e, rt2, rn, rt), "corpus_ldp_rt_is_base", &[rt, rt2, rn], rn));
+            }
+        }
+    }
+    // subs / adds with the second operand = INT_MIN (V flag), 64- and 32-bit, register and shifted forms
+    for (sf, int_min) in [(1u32, 1u64 << 63), (0, 1u64 << 31)] {
+        for op in 0..2 {
+            for (word, rm_val) in [
+                (addsub_shift(sf, op, 1, 0, 2, 0, 1, 0), int_min),
+                (addsub_shift(sf, op, 1, 0, 2, if sf == 1 { 63 } else { 31 }, 1, 0), 1),
+                (addsub_ext(sf, op, 1, 2, if sf == 1 { 3 } else { 2 }, 0, 1, 0), int_min),
+            ] {
+                let mut e = enc(word, "corpus_flags_int_min", Kind::Arith, &[1, 2, 0]);
+                for x1 in [0u64, 1, int_min, int_min - 1, int_min + 1, u64::MAX, (int_min << 1).wrapping_sub(1)] {
+                    e.forced.push(vec![(1, x1), (2, rm_val)]);
+                }
+                v.push(e);
+            }
+        }
+    }
+    // loads into the zero register with write-back: the write-back must survive
+    for (word, base) in [
+        (ldst_imm9(3, 1, 8, 1, 9, 31), 9u32),   // ldr xzr, [x9], #8
+        (ldst_imm9(3, 1, 8, 3, 9, 31), 9),      // ldr xzr, [x9, #8]!
+        (ldst_imm9(2, 1, 4, 1, 31, 31), 31),    // ldr wzr, [sp], #4
+        (ldst_imm9(0, 2, 0x1ff, 1, 9, 31), 9),  // ldrsb xzr, [x9], #-1
+        (ldst_imm9(3, 0, 0x1f8, 3, 9, 31), 9),  // str xzr, [x9, #-8]!
+        (ldst_pair(2, 1, 1, 2, 31, 9, 31), 9),  // ldp xzr, xzr ... (t = t2: unpredictable, not compared)
+        (ldst_pair(2, 1, 1, 2, 31, 9, 3), 9),   // ldp x3, xzr, [x9], #16
+        (ldst_pair(2, 3, 0, 0x7e, 31, 31, 31), 31), // stp xzr, xzr, [sp, #-16]!
+    ] {
+        v.push(mem(word, "corpus_zr_writeback", &[base], base));
+    }
+    // cbz/cbnz/tbz/tbnz on a W register whose upper half is non-zero
+    for (word, reg) in [
+        (cb(0, 0, 2, 4), 4u32), (cb(0, 1, 2, 4), 4), (cb(0, 0, 0x7fffe, 30), 30), (tb(0, 0, 31, 2, 4), 4), (tb(0, 1, 0, 2, 4), 4),
+        (cb(1, 0, 2, 4), 4), (cb(1, 1, 2, 4), 4),
+    ] {
+        let mut e = enc(word, "corpus_w_upper_half", Kind::TestReg, &[reg]);
+        for val in [0x1_0000_0000u64, 0xffff_ffff_0000_0000, 0x8000_0000_0000_0000, 0, 0xffff_ffff, 0x1_8000_0000, 0x7fff_ffff_0000_0001] {
+            e.forced.push(vec![(reg, val)]);
+        }
+        v.push(e);
+    }
+    v
+}
+
+/// Register aliasing / register-31 table (quick tier, every seed): every form with the Rd/Rn/Rm/Rt/Rt2
+/// coincidences (the CONSTRAINED UNPREDICTABLE ones are Undef in the specification: lifted, tied, not compared)
+/// and register 31 in every position.
+fn alias_table() -> Vec<Enc> {
+    let mut v = vec![];
+    for sf in 0..2 {
+        for op in 0..2 {
+            for s in 0..2 {
+                for (rd, rn) in R2.iter() {
+                    let mut e = enc(addsub_imm(sf, op, s, 0, 0x10, *rn, *rd), "addsub_imm", Kind::Arith, &[*rn, *rd]);
+                    e.hints = vec![0x10];
+                    v.push(e);
+                }
+                for (rd, rn, rm) in R3.iter() {
+                    v.push(enc(addsub_shift(sf, op, s, 1, *rm, 3, *rn, *rd), "addsub_shift", Kind::Arith, &[*rn, *rm, *rd]));
+                    v.push(enc(addsub_ext(sf, op, s, *rm, if (*rd + *rn) % 2 == 0 { 3 - (1 - sf) } else { 4 }, 1, *rn, *rd), "addsub_ext", Kind::Arith, &[*rn, *rm, *rd]));
+                }
+            }
+        }
+        for (rd, _, rm) in R3.iter() {
+            v.push(enc(orr_shift(sf, 0, *rm, 0, 31, *rd), "mov_reg", Kind::Arith, &[*rm, *rd]));
+        }
+        for rd in [0u32, 31] {
+            v.push(enc(movwide(sf, 2, 1, 0x1234, rd), "mov_wide", Kind::Arith, &[rd]));
+            v.push(enc(movwide(sf, 0, 0, 0x1234, rd), "mov_wide", Kind::Arith, &[rd]));
+        }
+    }
+    let rt_rn: [(u32, u32); 8] = [(0, 1), (2, 31), (31, 3), (31, 31), (4, 4), (30, 29), (5, 30), (30, 30)];
+    for (size, opc) in [(0u32, 0u32), (3, 0), (3, 1), (2, 2), (1, 3)] {
+        for (rt, rn) in rt_rn.iter() {
+            for (class, word) in [
+                ("ldst_uimm", ldst_uimm(size, opc, 1, *rn, *rt)),
+                ("ldst_unscaled", ldst_imm9(size, opc, 0x1f8, 0, *rn, *rt)),
+                ("ldst_post", ldst_imm9(size, opc, 8, 1, *rn, *rt)),
+                ("ldst_pre", ldst_imm9(size, opc, 0x1f8, 3, *rn, *rt)),
+            ] {
+                let mut e = enc(word, class, Kind::Mem, &[*rt, *rn]);
+                e.base = Some(*rn);
+                v.push(e);
+            }
+        }
+        for (rt, rn, rm) in [(0u32, 1u32, 2u32), (3, 31, 4), (31, 5, 31), (6, 6, 6), (7, 8, 7), (9, 10, 10), (31, 31, 31)] {
+            for option in [3u32, 6] {
+                let mut e = enc(ldst_reg(size, opc, rm, option, 1, rn, rt), "ldst_reg", Kind::Mem, &[rt, rn, rm]);
+                e.base = Some(rn);
+                e.offreg = Some(rm);
+                v.push(e);
+            }
+        }
+    }
+    let pr: [(u32, u32, u32); 11] = [(0, 1, 2), (3, 4, 31), (31, 5, 6), (7, 31, 8), (31, 31, 31), (9, 10, 9), (11, 12, 12), (13, 13, 14), (29, 30, 31), (15, 15, 15), (31, 31, 16)];
+    for (opc, l) in [(0u32, 0u32), (0, 1), (2, 0), (2, 1), (1, 1)] {
+        for mode in 0..4u32 {
+            if opc == 1 && mode == 0 { continue; }
+            for (rt, rt2, rn) in pr.iter() {
+                let mut e = enc(ldst_pair(opc, mode, l, 0x7e, *rt2, *rn, *rt), "ldst_pair", Kind::Mem, &[*rt, *rt2, *rn]);
+                e.base = Some(*rn);
+                v.push(e);
+            }
+        }
+    }
+    for size in [0u32, 3] {
+        for l in 0..2 {
+            for (rt, rn) in rt_rn.iter() {
+                let mut e = enc(ldst_ord(size, l, 1, *rn, *rt), "ldst_ordered", Kind::Mem, &[*rt, *rn]);
+                e.base = Some(*rn);
+                v.push(e);
+            }
+        }
+    }
+    for opc in 0..3 {
+        for rn in [0u32, 30, 31] {
+            v.push(enc(b_reg(opc, rn), "b_reg", Kind::BranchReg, &[rn, 30]));
+        }
+    }
+    for sf in 0..2 {
+        for rt in [0u32, 30, 31] {
+            v.push(enc(cb(sf, 0, 2, rt), "cbz_cbnz", Kind::TestReg, &[rt]));
+            v.push(enc(tb(sf, 1, 5, 2, rt), "tbz_tbnz", Kind::TestReg, &[rt]));
+        }
+    }
+    v
 }
 
 /// register-field patterns: (rd, rn, rm) with 31 in every position, and the aliasing combinations
@@ -300,11 +522,86 @@ fn structured() -> Vec<Enc> {
             }
         }
     }
+    // ---- MOV (bitmask immediate) = ORR (immediate) with Rn = ZR; every element size, rotations, the MoveWidePreferred boundary
+    for sf in 0..2u32 {
+        for (n, imms) in [(0u32, 0u32), (0, 0b111100), (0, 0b111101), (0, 0b110000), (0, 0b110110), (0, 0b100000), (0, 0b101110), (0, 0), (0, 7), (0, 15), (0, 16), (0, 17), (0, 30), (0, 31), (1, 0), (1, 15), (1, 16), (1, 31), (1, 47), (1, 48), (1, 49), (1, 62), (1, 63), (0, 63), (0, 0b111110)] {
+            for immr in [0u32, 1, 7, 15, 16, 17, 31, 33, 48, 63] {
+                for (rn, rd) in [(31u32, 0u32), (31, 31), (1, 2)] {
+                    if rn != 31 && immr != 1 { continue; }
+                    v.push(enc(orr_imm(sf, n, immr, imms, rn, rd), "mov_bitmask", Kind::Arith, &[rn, rd]));
+                }
+            }
+        }
+    }
+    // ---- NOP, PRFM (immediate, unscaled, register, literal), STLUR*, ordered accesses with (1) fields not all ones
+    v.push(enc(0xd503201f, "nop_prfm", Kind::Plain, &[]));
+    v.push(enc(0xd503203f, "nop_prfm", Kind::Plain, &[])); // yield: not accepted
+    for (word, base) in [(ldst_uimm(3, 2, 5, 1, 0), 1u32), (ldst_uimm(3, 2, 0xfff, 31, 31), 31), (ldst_imm9(3, 2, 0x1f8, 0, 2, 7), 2), (ldst_imm9(3, 2, 8, 1, 2, 7), 2),
+                         (ldst_imm9(3, 2, 8, 3, 2, 7), 2), (ldst_reg(3, 2, 3, 3, 1, 4, 24), 4), (ldst_reg(3, 2, 3, 6, 0, 31, 1), 31), (ldst_reg(3, 2, 3, 1, 0, 4, 1), 4)] {
+        let mut e = enc(word, "nop_prfm", Kind::Mem, &[base]);
+        e.base = Some(base);
+        v.push(e);
+    }
+    v.push(enc(ldlit(3, 0x7ffff, 5), "nop_prfm", Kind::Plain, &[]));
+    for size in 0..4u32 {
+        for opc in 0..4u32 {
+            for (rt, rn) in [(0u32, 1u32), (31, 31), (4, 4)] {
+                let mut e = enc(stlur(size, opc, 0x1f8, rn, rt), "stlur_ldapur", Kind::Mem, &[rt, rn]);
+                e.base = Some(rn);
+                v.push(e);
+            }
+        }
+        for l in 0..2 {
+            for (rs, rt2) in [(0u32, 31u32), (31, 0), (5, 6)] {
+                let mut e = enc(ldst_ord_sbo(size, l, 1, rs, rt2, 1, 0), "ldst_ordered_sbo", Kind::Mem, &[0, 1]);
+                e.base = Some(1);
+                v.push(e);
+            }
+        }
+    }
+    // ---- SIMD&FP register loads/stores: B H S D Q x every addressing mode; pairs S D Q
+    for (size, opc) in [(0u32, 0u32), (0, 1), (1, 0), (1, 1), (2, 0), (2, 1), (3, 0), (3, 1), (0, 2), (0, 3), (1, 2), (2, 3)] {
+        let v1 = 1u32 << 26;
+        for (rt, rn) in [(0u32, 1u32), (31, 31), (5, 5), (30, 2)] {
+            for (class, word) in [
+                ("simd_ldst_uimm", ldst_uimm(size, opc, 3, rn, rt) | v1),
+                ("simd_ldst_unscaled", ldst_imm9(size, opc, 0x1f1, 0, rn, rt) | v1),
+                ("simd_ldst_post", ldst_imm9(size, opc, 16, 1, rn, rt) | v1),
+                ("simd_ldst_pre", ldst_imm9(size, opc, 0x1f0, 3, rn, rt) | v1),
+                ("simd_ldst_unpriv", ldst_imm9(size, opc, 8, 2, rn, rt) | v1),
+            ] {
+                let mut e = enc(word, class, Kind::Mem, &[rn]);
+                e.base = Some(rn);
+                v.push(e);
+            }
+            for (option, sbit) in [(3u32, 0u32), (3, 1), (2, 1), (6, 0), (7, 1), (1, 0)] {
+                let mut e = enc(ldst_reg(size, opc, 3, option, sbit, rn, rt) | v1, "simd_ldst_reg", Kind::Mem, &[rn, 3]);
+                e.base = Some(rn);
+                e.offreg = Some(3);
+                v.push(e);
+            }
+        }
+    }
+    for opc in 0..4u32 {
+        for mode in 0..4u32 {
+            for l in 0..2u32 {
+                for (rt, rt2, rn) in [(0u32, 1u32, 2u32), (31, 30, 31), (4, 4, 5), (6, 7, 6)] {
+                    for imm in [1u32, 0x7e] {
+                        let mut e = enc(ldst_pair(opc, mode, l, imm, rt2, rn, rt) | 1 << 26, "simd_ldst_pair", Kind::Mem, &[rn]);
+                        e.base = Some(rn);
+                        v.push(e);
+                    }
+                }
+            }
+        }
+    }
     // ---- accepted encodings outside the property's integer classes (reported, not compared)
-    v.push(enc(0xd503201f, "other_nop", Kind::Plain, &[]));
-    v.push(enc(0xfd400020, "other_simd_ldst", Kind::Plain, &[]));
-    v.push(enc(0x3d800020, "other_simd_ldst", Kind::Plain, &[]));
-    v.push(enc(0xf9800020, "other_prfm", Kind::Plain, &[]));
+    v.push(enc(0x0e2b85fa, "other_vector_arith", Kind::Plain, &[])); // add v26.8b, v15.8b, v11.8b : lifted as ONE 64-bit addition
+    v.push(enc(0x4e3d845e, "other_vector_arith", Kind::Plain, &[])); // add v30.16b, ...          : lifted as one 128-bit addition
+    v.push(enc(0x5ee885bd, "other_vector_arith", Kind::Plain, &[])); // add d29, d13, d8 (scalar)
+    v.push(enc(0x6e0c0f5f, "other_vector_mov", Kind::Plain, &[]));   // mov v31.s[1], v26.s[0]
+    v.push(enc(0x04630328, "other_sve", Kind::Plain, &[]));          // SVE add z8.h, z25.h, z3.h
+    v.push(enc(0x8410d00a, "other_sve", Kind::Plain, &[]));          // SVE prefetch -> nop
     v
 }
 
@@ -312,6 +609,10 @@ fn structured() -> Vec<Enc> {
 fn random_enc(r: &mut Rng) -> Enc {
     let f = |r: &mut Rng, n: u64| r.below(n) as u32;
     let reg = |r: &mut Rng| if r.chance(1, 5) { 31 } else { r.below(31) as u32 };
+    if r.chance(1, 4) {
+        // a uniformly random 32-bit word: acceptance must agree with the specification's decoder
+        return enc(r.next() as u32, "uniform", Kind::Plain, &[]);
+    }
     match r.below(20) {
         0 | 1 => {
             let (rn, rd) = (reg(r), reg(r));
@@ -452,7 +753,8 @@ struct Sample {
 }
 fn samples_for(r: &mut Rng, e: &Enc) -> Vec<Sample> {
     let count = match e.kind { Kind::Arith => 8, Kind::Mem => 6, Kind::Cond => 16, Kind::TestReg => 8, Kind::BranchReg => 4, Kind::Plain => 2 };
-    (0..count)
+    let forced: Vec<Sample> = e.forced.iter().map(|ovr| Sample { ovr: ovr.clone(), nzcv: r.below(16) as u32, salt: r.below(1 << 20) }).collect();
+    let generic = (0..count)
         .map(|k| {
             let mut ovr: Vec<(u32, u64)> = vec![];
             match e.kind {
@@ -494,7 +796,8 @@ fn samples_for(r: &mut Rng, e: &Enc) -> Vec<Sample> {
             let nzcv = if e.kind == Kind::Cond { k as u32 } else { r.below(16) as u32 };
             Sample { ovr, nzcv, salt: r.below(1 << 20) }
         })
-        .collect()
+        .collect::<Vec<Sample>>();
+    forced.into_iter().chain(generic.into_iter()).collect()
 }
 
 // ---------------------------------------------------------------- one case
@@ -514,12 +817,17 @@ fn gcd(a: u64, b: u64) -> u64 {
     if b == 0 { a } else { gcd(b, a % b) }
 }
 
-fn gen_case(seed: u64, idx: u64, table: &[Enc], total: u64) -> Case {
+fn gen_case(seed: u64, idx: u64, front: &[Enc], table: &[Enc], total: u64) -> Case {
     let mut r = Rng::for_case(seed, idx);
     let r = &mut r;
     let m = table.len() as u64;
     let _ = total;
-    let e = if idx < m {
+    let f = front.len() as u64;
+    let e = if idx < f {
+        // fixed corpus + register-aliasing table: the same words at every seed (states still vary with the seed)
+        front[idx as usize].clone()
+    } else if idx - f < m {
+        let idx = idx - f;
         // a fixed stride permutation of the structured table (independent of --n, so that --only i
         // regenerates case i): every prefix is a spread subsample
         let p = [7919u64, 7907, 7901, 7883].iter().copied().find(|p| gcd(*p, m) == 1).unwrap_or(1);
@@ -574,7 +882,13 @@ fn gen_case(seed: u64, idx: u64, table: &[Enc], total: u64) -> Case {
     );
     let mut tags = vec![format!("class:{}", e.class), format!("lift:{}", lift_tag), format!("endian:{}", if big { "big" } else { "little" })];
     if lift_tag == "ok" {
-        if e.class.starts_with("other_") {
+        if e.class.starts_with("other_") || (e.class == "uniform" && !spec_decodes(e.word)) {
+            tags.push("cov:accepted-outside-the-listed-classes".into());
+        }
+        if e.class == "mov_bitmask" && !spec_decodes(e.word) {
+            // ORR (immediate) with a RESERVED bitmask encoding (imms = 11111x ...): UNDEFINED in the Arm ARM, decoded by
+            // bad64 as `mov`, hence accepted by the lifter.  Counted among the accepted words outside the specification.
+            tags.push("kf:reserved-bitmask-immediate-accepted".into());
             tags.push("cov:accepted-outside-the-listed-classes".into());
         }
         if is_subs(e.word) {
@@ -583,10 +897,10 @@ fn gen_case(seed: u64, idx: u64, table: &[Enc], total: u64) -> Case {
         }
     }
     Case {
-        coq: format!("K {} {} {} {} {}", e.word, addr, coq_bool(big), obs, coq_samples),
+        coq: format!("K {} {} {} {} {} {}", e.word, addr, coq_bool(big), coq_bool(lift_tag == "ok" && (e.class.starts_with("other_") || ((e.class == "uniform" || e.class == "mov_bitmask") && !spec_decodes(e.word)))), obs, coq_samples),
         descr: format!("word {:#010x} at {:#x} ({}, {}-endian data): {} ; {} sampled states", e.word, addr, e.class, if big { "big" } else { "little" }, shown, samples.len()),
         tags,
-        nontrivial: lift_tag == "ok" && !e.class.starts_with("other_"),
+        nontrivial: lift_tag == "ok" && !e.class.starts_with("other_") && (e.class != "uniform" || spec_decodes(e.word)),
         key: format!("{:08x}:{:x}:{}", e.word, addr, big),
     }
 }
@@ -595,6 +909,8 @@ fn main() {
     quiet_panics();
     let args = parse_args();
     let table = structured();
+    let mut front = corpus();
+    front.extend(alias_table());
     if let Some(words) = args.extra.get("probe") {
         // debugging aid: --probe 0b3f43ff,8b3f63ff prints what the lifter returns for each word
         for w in words.split(',') {
@@ -605,18 +921,33 @@ fn main() {
                     let ops: Vec<String> = b.instructions().iter().flat_map(|(_, g)| g.blocks().iter().flat_map(|bl| bl.instructions().iter().map(|i| format!("{}", i.operation())).collect::<Vec<_>>()).collect::<Vec<_>>()).collect();
                     println!("{:08x}: {{{}}} -> {:?}", word, ops.join("; "), b.successors().iter().map(|(a, c)| format!("{:#x}{}", a, c.as_ref().map(|e| format!(" if {}", e)).unwrap_or_default())).collect::<Vec<_>>());
                 }
-                Obs::Err(k) => println!("{:08x}: Err {}", word, k),
+                Obs::Err(k) => println!("{:08x}: Err {} ({:?})", word, k, AArch64::new().translate_block(&bytes, 0x1000, &Options::new()).err().map(|e| format!("{}", e))),
                 Obs::Panic => println!("{:08x}: PANIC", word),
             }
         }
         return;
     }
-    if args.extra.contains_key("count") {
-        println!("{}", table.len());
+    if let Some(n) = args.extra.get("scan") {
+        // debugging aid: uniformly random words; prints every word the lifter accepts
+        let n: u64 = n.parse().unwrap();
+        let mut r = Rng::new(args.seed ^ 0x5ca9);
+        for _ in 0..n {
+            let word = r.next() as u32;
+            let bytes = word.to_le_bytes().to_vec();
+            if let Obs::Ok(b) = observe(|| AArch64::new().translate_block(&bytes, 0x1000, &Options::new())) {
+                let ops: Vec<String> = b.instructions().iter().flat_map(|(_, g)| g.blocks().iter().flat_map(|bl| bl.instructions().iter().map(|i| format!("{}", i.operation())).collect::<Vec<_>>()).collect::<Vec<_>>()).collect();
+                println!("{:08x} {{{}}}", word, ops.join("; "));
+            }
+        }
         return;
     }
-    let idxs: Vec<u64> = match args.only { Some(i) => vec![i], None => (0..args.n).collect() };
-    let cases: Vec<Case> = idxs.iter().map(|i| gen_case(args.seed, *i, &table, args.n)).collect();
+    if args.extra.contains_key("count") {
+        println!("corpus+alias {} structured {}", front.len(), table.len());
+        return;
+    }
+    let from: u64 = args.extra.get("from").map(|v| v.parse().unwrap()).unwrap_or(0); // dev aid: start index
+    let idxs: Vec<u64> = match args.only { Some(i) => vec![i], None => (from..from + args.n).collect() };
+    let cases: Vec<Case> = idxs.iter().map(|i| gen_case(args.seed, *i, &front, &table, args.n)).collect();
     write_cases(
         &args,
         "C03",
@@ -624,6 +955,7 @@ fn main() {
         "ck",
         &cases,
         16,
-        serde_json::json!({"structured_table": table.len()}),
+        serde_json::json!({"structured_table": table.len(), "corpus_and_alias_table": front.len(),
+            "accepted_words_outside_the_specification": cases.iter().filter(|c| c.tags.iter().any(|t| t.starts_with("cov:accepted-outside"))).count()}),
     );
 }
